@@ -94,7 +94,7 @@ CLAIMS = {
         "technique": "null-tested must-analysis, discarded-result lint with frozen exception table, dominance, free-escape typestate",
     },
     "C16": {
-        "text": "Decides: every arena-backed container, pointer and field mutated after construction of CodeHolder, BaseEmitter, BaseAssembler, BaseBuilder, BaseCompiler, BaseRAPass and ConstPool is reset in the closure of each reset entry point, or exempt with a reason (126 obligations). Does not decide byte equality of recycled vs fresh generation nor address independence.",
+        "text": "Decides: every arena-backed container, pointer and field mutated after construction of CodeHolder, BaseEmitter, BaseAssembler, BaseBuilder, BaseCompiler, BaseRAPass and ConstPool is reset in the closure of each reset entry point, or exempt with a reason (126 obligations); every override of on_attach/on_detach/on_reinit calls the handler it overrides on every path. Does not decide byte equality of recycled vs fresh generation nor address independence.",
         "design_ref": "DESIGN.md section 3 / C16",
         "note": _TB,
         "technique": "reset-closure coverage over class fields (call graph + field writes), must-call rule, pointer-compare lint",
